@@ -98,7 +98,7 @@ CHECKS = {
  "C18": dict(engine="K+S", category="model_checking",
    technique="bounded model checking of the compiled Rust (Kani/CBMC, SAT) of the per-crossing kernel: Crossing::{pass,resolve,resolved,mirror,arcs,is_resolved} with symbolic type and edges, braid Generator",
    text="PER-CROSSING KERNEL ONLY: pass is a fixed-point-free involution matching the strand picture of each type; resolution table; mirror is an involution preserving edges and pass.",
-   note="NOT solver-decided: components, crossing signs, writhe, circle counts, Seifert circles, braid closure - they walk the diagram through HashSet/HashMap (not executable in Kani within reach, no scalar for the concolic engine). As an AUXILIARY, concrete part the S runner compares them on the catalogue diagrams, renumbered / rotated copies, all resolution states, partial resolutions and ten braid words against an independent reference (strand-relation union-find, orientation walk with all admissible orientations of over-only components, circle counts, permutation cycles); these comparisons involve no symbolic variable and are labelled 'linkfacts' in the evidence.",
+   note="NOT solver-decided: components, crossing signs, writhe, circle counts, Seifert circles, braid closure - they walk the diagram through HashSet/HashMap (not executable in Kani within reach, no scalar for the concolic engine). As an AUXILIARY, concrete part the S runner compares them on the catalogue diagrams, renumbered / rotated copies, all resolution states, partial resolutions, diagrams with two and three over-only components, conjugated braid words and EVERY braid word up to a length (2 strands <= 10 letters, 3 <= 7, 4 <= 5, 5 <= 5) against an independent reference (strand-relation union-find, orientation walk with all admissible orientations of over-only components, circle counts, permutation cycles); these comparisons involve no symbolic variable and are labelled 'linkfacts' in the evidence.",
    design="5/C18"),
 }
 
